@@ -1579,3 +1579,25 @@ def check_module_files(rep: Report, ctx: Any, rid: str) -> None:
                                      "leads to a diagnostic: two items with the same derived name overwrite each other",
                   where(f, node), lhs=norm(node)[:90], rhs="guarded by a membership test on the derived name that reaches a diagnostic")
     rep.floor("per_item_module_files", n, 2)
+
+
+def check_enum_class_shared(rep: Report, ctx: Any, rid: str) -> None:
+    """the compatibility condition of the enum builders on its own (the same obligations `check_registries` states after the stores):
+    for the properties that claim it for another reason than uniqueness of names"""
+    ix = ctx.py
+    for cname in ("EnumProperty", "LiteralEnumProperty"):
+        c = ix.cls(cname)
+        b = c.methods.get("build")
+        rep.require(b, f"{cname}.build")
+        found = False
+        reg_b = region(ix, b)
+        answering = {n for g in reg_b for n in _Compat(ix, g, cname).consumed()}
+        for g in reg_b:
+            if g.name in answering:
+                continue
+            for verdict, at, shown in _existing_compatible(g, cname, ix):
+                found = True
+                rep.check(verdict, rid, f"{short(g)}::existing-compatible",
+                          "an existing class of another kind or with other values under the same name must be diagnosed",
+                          where(g, at), lhs=shown, rhs="only error returns are reachable whenever existing is not this enum kind or values differ")
+        rep.require(found, f"{cname}.build compatibility test")
